@@ -50,7 +50,10 @@ def module_source(i, edges, params, subdir, extra=None, noexp=frozenset()):
 
     def imp_lines(j, form, spelling):
         base = name(j)
-        if j in subdir:
+        if j in subdir and i in subdir:
+            # both live in sub/: the path is relative to the importing file
+            path = {"m": base, "m.ms": f"{base}.ms", "./m": f"./{base}"}[spelling]
+        elif j in subdir:
             path = {"m": f"sub/{base}", "m.ms": f"sub/{base}.ms", "./m": f"./sub/{base}"}[spelling]
         else:
             path = {"m": base, "m.ms": f"{base}.ms", "./m": f"./{base}"}[spelling]
@@ -154,12 +157,12 @@ class C11(Check):
     rule = ("all import DAGs over n modules (edges from lower to higher index, every module reachable from the entry) x per edge "
             "(import form in {import m, import a, b from m, import type T from m, import type T, a, b from m}, path spelling in {m, m.ms, ./m}, placement of the import before / between / "
             "after the importer's side-effecting statements) - all combinations for n <= 3, at most one (quick) / two (thorough) deviating "
-            "edges for n = 4 and one for n = 5; variants with the imported leaf module in a sub-directory; variants in which leaf modules export "
+            "edges for n = 4 and one for n = 5; variants with the imported leaf module in a sub-directory and with several modules in a sub-directory that import each other (paths relative to the importing file); variants in which leaf modules export "
             "nothing (side effects only); negative cases (non-exported "
             "name through the module and through `import x from`, assignment to an exported member).  Each project is run in memory and "
             "from files.  State of the reference loader = (set of initialised modules, per-module counter and list); every project is one "
             "model trace replayed on the implementation.")
-    assumptions = ["modules in a sub-directory are leaves (they import nothing)", "a module's exported counter is mutated through its own exported closures"]
+    assumptions = ["a module in a sub-directory imports only modules of that sub-directory (the grammar cannot name a parent directory)", "a module's exported counter is mutated through its own exported closures"]
     chunksize = 8
     quick_cap_s = 50
     thorough_cap_s = 40 * 60
@@ -190,6 +193,24 @@ class C11(Check):
                         for r in range(1, len(leaves) + 1):
                             for sd in itertools.combinations(leaves, r):
                                 yield (n, edges, combo, sd)
+
+        def subdir_closed(nmax, k, nmin=3):
+            """sets of modules living in sub/ that are closed under import (a module in sub/ can only reach modules in sub/: the grammar has
+            no way to name the parent directory) and contain at least one module that imports another"""
+            d = EDGE_PARAMS.index(DEFAULT)
+            for n in range(nmin, nmax + 1):
+                for edges in dags(n):
+                    for r in range(2, n):
+                        for sd in itertools.combinations(range(1, n), r):
+                            if any(a in sd and b not in sd for a, b in edges) or not any(a in sd and b in sd for a, b in edges):
+                                continue
+                            for kk in range(0, k + 1):
+                                for which in itertools.combinations(range(len(edges)), kk):
+                                    for vals in itertools.product([x for x in range(len(EDGE_PARAMS)) if x != d], repeat=kk):
+                                        combo = [d] * len(edges)
+                                        for w, v in zip(which, vals):
+                                            combo[w] = v
+                                        yield (n, edges, tuple(combo), sd)
 
         def negatives():
             for kind in ("hidden-through-module", "hidden-by-name", "assign-member", "assign-const-member", "reassign-module",
@@ -231,11 +252,13 @@ class C11(Check):
               ("L0b-leaf-modules-without-exports", noexports(4, 1) if tier == "quick" else noexports(5, 1))]
         if tier == "quick":
             ls += [("L1-n<=2-all-combinations", all_combos(2)), ("L2-n=3-<=2-deviating-edges", deviating(3, 2)),
-                   ("L3-subdirectory-leaves-n<=3-<=1-deviating-edge", subdirs_dev(1, (2, 3))), ("L4-n=4-<=1-deviating-edge", deviating(4, 1))]
+                   ("L3-subdirectory-leaves-n<=3-<=1-deviating-edge", subdirs_dev(1, (2, 3))),
+                   ("L3b-sub-directory-modules-importing-each-other-n=3-<=1-deviating-edge+n=4-default", itertools.chain(subdir_closed(3, 1), subdir_closed(4, 0, 4))), ("L4-n=4-<=1-deviating-edge", deviating(4, 1))]
         else:
             ls += [("L1-n<=3-all-combinations", all_combos(3)), ("L2-n<=3-subdirectory-leaves-all-combinations", subdirs()),
                    ("L3-n=4-<=2-deviating-edges", deviating(4, 2)), ("L4-n=5-<=1-deviating-edge", deviating(5, 1)),
-                   ("L5-subdirectory-leaves-n<=4-<=2-deviating-edges", subdirs_dev(2))]
+                   ("L5-subdirectory-leaves-n<=4-<=2-deviating-edges", subdirs_dev(2)),
+                   ("L6-sub-directory-modules-importing-each-other-n<=5-<=1-deviating-edge", subdir_closed(5, 1))]
         return ls
 
     def describe(self, case):
